@@ -7,7 +7,10 @@ isotope_abundance and density.element_densities (re-read from the module
 in a table, in seven table configurations; plus a Hypothesis search over
 strings in the documented uncertainty notations for util.parse_uncertainty.
 """
+from .. import subtable
+import decimal
 from decimal import Decimal
+from ..dec import HI, highprec
 
 from hypothesis import strategies as st
 
@@ -124,12 +127,12 @@ def reload_env(config):
     if st_ is None:
         pub = periodictable.elements
         if XS[x][0] == "private":
-            t = core.PeriodicTable("c06-reload-" + x)
+            t = subtable.new("c06-reload-" + x)
             mass.init(t)
             density.init(t)
             other = pub
         else:
-            other = core.PeriodicTable("c06-beside-public")     # exists before the public table is customised
+            other = subtable.new("c06-beside-public")     # exists before the public table is customised
             mass.init(other)
             density.init(other)
             t = pub
@@ -155,7 +158,7 @@ def reload_env(config):
         st_["scale"] = scale
         st_["stage"] = 1
         if XS[x][0] == "private":
-            t2 = core.PeriodicTable("c06-reload-second-" + x)     # initialised while the first is customised
+            t2 = subtable.new("c06-reload-second-" + x)     # initialised while the first is customised
             mass.init(t2)
             density.init(t2)
             st_["other2"] = t2
@@ -230,6 +233,7 @@ def _dens_label(sym):
         return "unreadable"
 
 
+@highprec
 def oracle():
     """Expected values from the independent readers (per process).  Never raises because of a cell's content:
     unreadable cells become BadEntry records, rows that cannot be laid out go to O['problems']."""
@@ -478,7 +482,7 @@ def env(config):
     if config == "public":
         t = pub
     elif config == "private-only":
-        t = core.PeriodicTable("c06-only")
+        t = subtable.new("c06-only")
         mass.init(t)
         density.init(t)
     elif config in ("public-after-custom", "private-after-custom"):
@@ -486,7 +490,7 @@ def env(config):
         # (assignment to _mass/_density of its own atoms) and every value of it is read first; the public
         # table and a private table initialised afterwards must still serve the embedded entries.
         if "public-after-custom" not in _ENV:
-            tc = core.PeriodicTable("c06-custom")
+            tc = subtable.new("c06-custom")
             mass.init(tc)
             density.init(tc)
             for k, el in enumerate(tc):
@@ -499,7 +503,7 @@ def env(config):
             for el in tc:
                 _ = (el.mass, el.density, el.number_density, el.interatomic_distance,
                      [(i.mass, i.abundance, i.density) for i in el])
-            t3 = core.PeriodicTable("c06-p3")
+            t3 = subtable.new("c06-p3")
             mass.init(t3)
             density.init(t3)
             _ENV["public-after-custom"] = pub
@@ -510,10 +514,10 @@ def env(config):
         if "private-after-public" not in _ENV:
             for el in pub:
                 _ = (el.mass, el.density, [(i.mass, i.abundance) for i in el])
-            t1 = core.PeriodicTable("c06-p1")
+            t1 = subtable.new("c06-p1")
             mass.init(t1)
             density.init(t1)
-            t2 = core.PeriodicTable("c06-p2")
+            t2 = subtable.new("c06-p2")
             mass.init(t2)
             density.init(t2)
             _ENV["private-after-public"] = t1
@@ -563,7 +567,10 @@ def check_row(ctx, case):
     cell reports that cell (one bucket) and is skipped; everything else goes on."""
     mode = case["config"].split(":")[1] if case["config"].startswith("mode:") else None
     try:
-        _check_row(ctx, case)
+        env(case["config"])      # the library reads its embedded tables in the thread's own decimal context (pbt/ambient.py)
+        oracle()
+        with decimal.localcontext(HI):       # the comparison arithmetic runs in the oracle's 80-digit context
+            _check_row(ctx, case)
     except Unreadable as u:
         raise _unreadable(u, case)
     except ChildFailed as x:
@@ -874,7 +881,10 @@ def sweep(ctx, config):
 
 def check_custom(ctx, case):
     try:
-        _check_custom(ctx, case)
+        env(case["config"])
+        oracle()
+        with decimal.localcontext(HI):
+            _check_custom(ctx, case)
     except Unreadable as u:
         raise _unreadable(u, case)
 
@@ -981,7 +991,12 @@ def check_notation(ctx, v):
         nt = exp["kind"] == "range"
         cls = ["notation:" + exp["kind"]]
     ctx.case(("notation", s), nontrivial=nt, sample=s, cls=cls)
-    got = parse_uncertainty(s)
+    got = parse_uncertainty(s)           # in the thread's own decimal context
+    with decimal.localcontext(HI):
+        _judge_notation(s, got, exp, sub, case)
+
+
+def _judge_notation(s, got, exp, sub, case):
     if not (isinstance(got, tuple) and len(got) == 2):
         raise Violation("c06:notation:shape", "parse_uncertainty(%r) = %r" % (s, got), case)
     if exp["kind"] == "missing":
